@@ -1,4 +1,5 @@
 import FmpRpc.Model.Conn
+import FmpRpc.Proofs.ConnInv
 /-
   C14 — one reconnect sequence at a time, announced once, waiters released
   together.  Every reachable state of `Model/Conn`: any number of commands,
@@ -17,7 +18,22 @@ theorem one_sequence (fi : Bool) (s : St) (hr : Reachable fi s) :
     (∀ i, s.reconnectChan = some i ↔ alive (s.seqs i) = true) ∧
     s.dialing ≤ 1 ∧
     (s.dialing = 1 ↔ ∃ i, (s.seqs i).pc = .dial) := by
-  sorry
+  have h := CInv.reach hr
+  have hal : ∀ i, alive (s.seqs i) = true ↔ ((s.seqs i).pc ≠ .absent ∧ (s.seqs i).pc ≠ .done) := by
+    intro i; simp [alive]
+  refine ⟨?_, ?_, ?_, ?_⟩
+  · intro i j hi hj
+    have h1 := (h.chan i).2 ((hal i).1 hi)
+    have h2 := (h.chan j).2 ((hal j).1 hj)
+    rw [h1] at h2; exact Option.some.inj h2
+  · intro i; rw [hal]; exact h.chan i
+  · by_cases hd : s.dialing = 0
+    · omega
+    · obtain ⟨i, hi⟩ := h.dialB hd
+      have := h.dialA i hi; omega
+  · constructor
+    · intro hd; exact h.dialB (by omega)
+    · rintro ⟨i, hi⟩; exact h.dialA i hi
 
 /-- **Each sequence reports its start exactly once**, before anything else it
     does, with the first-connection status for the first sequence unless
@@ -27,13 +43,26 @@ theorem announced_once (fi : Bool) (s : St) (hr : Reachable fi s) (i : Nat) :
     ((s.seqs i).pc ≠ .absent → (s.seqs i).pc ≠ .announce → (s.seqs i).announcements = 1) ∧
     ((s.seqs i).pc = .announce → (s.seqs i).announcements = 0 ∧ (s.seqs i).dials = 0) ∧
     ((s.seqs i).pc ≠ .absent → ((s.seqs i).first = true ↔ (i = 0 ∧ fi = false))) := by
-  sorry
+  have h := CInv.reach hr
+  have h0 := h.ann0 i
+  have h1 := h.ann1 i
+  have h2 := h.ann2 i
+  refine ⟨?_, h2, h1, h.first i⟩
+  by_cases ha : (s.seqs i).pc = .absent
+  · have := h0 ha; omega
+  · by_cases hb : (s.seqs i).pc = .announce
+    · have := (h1 hb).1; omega
+    · have := h2 ha hb; omega
 
 /-- one error notification per failed attempt that is retried -/
 theorem one_note_per_retry (fi : Bool) (s : St) (hr : Reachable fi s) (i : Nat) :
     (s.seqs i).errNotes ≤ (s.seqs i).fails ∧ (s.seqs i).fails ≤ (s.seqs i).errNotes + 1 ∧
     (∀ e, (s.seqs i).pc = .sleep e → (s.seqs i).errNotes = (s.seqs i).fails) := by
-  sorry
+  have h := CInv.reach hr
+  refine ⟨(h.notes i).1, (h.notes i).2, ?_⟩
+  intro e he
+  have := h.notesE i (by simp [he]) (by simp [he]) (by simp [he])
+  omega
 
 /-- **Finalize exactly once, with the protocols registered and OnConnect
     succeeded, before the release**: a sequence that ends without an error has
@@ -46,7 +75,23 @@ theorem finalize_then_release (fi : Bool) (s : St) (hr : Reachable fi s) (i : Na
       (s.seqs i).finalizes = 1 ∧ ∃ x, (s.seqs i).published = some x ∧ s.xpRegistered x = true ∧
         Evt.onConnectOk x ∈ s.hist) ∧
     ((s.seqs i).finalizes = 1 → ∃ x, (s.seqs i).published = some x ∧ s.xpRegistered x = true) := by
-  sorry
+  have h := CInv.reach hr
+  refine ⟨?_, ?_, ?_⟩
+  · cases hp : (s.seqs i).published with
+    | none => have := h.fin0 i hp; omega
+    | some x => have := (h.fin1 i x hp).1; omega
+  · intro hc he
+    have hd := (h.closed i).1 hc
+    have hne := h.finR i (Or.inr hd) he
+    cases hp : (s.seqs i).published with
+    | none => exact absurd hp hne
+    | some x =>
+      have := h.fin1 i x hp
+      exact ⟨this.1, x, rfl, this.2.1, this.2.2.1⟩
+  · intro hf
+    cases hp : (s.seqs i).published with
+    | none => have := h.fin0 i hp; omega
+    | some x => exact ⟨x, rfl, (h.fin1 i x hp).2.1⟩
 
 /-- **All waiters of one sequence are released together with the same
     outcome**: a waiter released by sequence `i` returns the value of that
@@ -55,12 +100,24 @@ theorem finalize_then_release (fi : Bool) (s : St) (hr : Reachable fi s) (i : Na
 theorem released_with_same_outcome (fi : Bool) (s : St) (hr : Reachable fi s) (w i : Nat) (r : Option CErr)
     (hw : (s.waiters w).pc = .ret r) (hf : (s.waiters w).relBy = some i) :
     (s.seqs i).closed = true ∧ r = (s.seqs i).errSlot := by
-  sorry
+  have h := CInv.reach hr
+  have := h.wrel w i hf
+  refine ⟨this.1, ?_⟩
+  have h2 := this.2
+  rw [hw] at h2
+  exact WPc.ret.inj h2
 
 theorem slot_stable_after_close (fi : Bool) (s s' : St) (a : Act) (hr : Reachable fi s)
     (hs : step s a = some s') (i : Nat) (hc : (s.seqs i).closed = true) :
     (s'.seqs i).errSlot = (s.seqs i).errSlot ∧ (s'.seqs i).closed = true := by
-  sorry
+  have h := CInv.reach hr
+  have hd := (h.closed i).1 hc
+  have hch := h.chan i
+  have hfr := h.fresh i
+  cases a <;> simp only [step] at hs
+  all_goals (repeat' split at hs)
+  all_goals (try cases hs)
+  all_goals (simp only [setSeq, setWaiter, log, getReconnectChan] at * <;> grind)
 
 /-- **Shutdown is bounded**: after its context has been cancelled a sequence
     starts at most one more dial, and every step of a cancelled sequence that
@@ -72,11 +129,18 @@ theorem shutdown_bounded (fi : Bool) (s : St) (hr : Reachable fi s) (i : Nat) :
       ((s.seqs i).pc = .retryStart → ∃ s', step s (.sRetryStart i) = some s' ∧ (s'.seqs i).pc = .release) ∧
       (∀ e, (s.seqs i).pc = .sleep e → ∃ s', step s (.sSleepCtx i) = some s' ∧ (s'.seqs i).pc = .release) ∧
       (∀ e r, (s.seqs i).pc = .attemptEnd e → ∃ s', step s (.sAttemptEnd i r) = some s' ∧ (s'.seqs i).pc = .release)) := by
-  sorry
+  have h := CInv.reach hr
+  refine ⟨h.dac i, ?_⟩
+  intro hc
+  refine ⟨?_, ?_, ?_⟩
+  · intro hp; simp [step, hp, hc, setSeq]
+  · intro e hp; simp [step, hp, hc, setSeq]
+  · intro e r hp; simp [step, hp, hc, setSeq]
 
 /-- Shutdown cancels the sequence that is registered at that moment -/
 theorem shutdown_cancels_live (s s' : St) (i : Nat) (h : s.reconnectChan = some i) (hc : s.cancelSet = true)
     (hs : step s .shutdown = some s') : (s'.seqs i).ctxCancelled = true := by
-  sorry
+  simp only [step, h, hc] at hs
+  split at hs <;> cases hs <;> simp [setSeq]
 
 end FmpRpc.C14
